@@ -696,16 +696,25 @@ func runOnce(c Case, bound time.Duration) (kit.Verdict, bool) {
 	return x.v, x.slow
 }
 
+var patience h2kit.Patience
+
 func run(c Case) kit.Verdict {
-	v, slow := runOnce(c, kit.T())
-	if slow {
-		v2, slow2 := runOnce(c, 3*kit.T())
-		if !slow2 {
-			kit.Inconclusive("histories")
-		}
-		return v2
+	bound, revalidate := patience.Bound()
+	v, slow := runOnce(c, bound)
+	if !slow {
+		return v
 	}
-	return v
+	if !revalidate {
+		patience.Spent(bound)
+		return v
+	}
+	v2, slow2 := runOnce(c, 3*bound)
+	if !slow2 {
+		kit.Inconclusive("histories")
+	} else if len(v2) > 0 {
+		patience.Confirm()
+	}
+	return v2
 }
 
 var propHistories = &kit.Prop[Case]{
